@@ -119,7 +119,7 @@ where
             .unwrap_or(self.initial_len());
         let begin_value = begin_idx + self.range.start.into();
         let end_value = match begin_value.cmp(&self.range.end.into()) {
-            Ordering::Less => (begin_value + n).min(self.range.end.into()),
+            Ordering::Less => begin_value.saturating_add(n).min(self.range.end.into()),
             _ => begin_value,
         };
         let end_idx: usize = end_value - self.range.start.into();
